@@ -149,7 +149,10 @@ func genBridge(r *sim.RNG, p *sim.Plan, tier string, burn, mint bool) []sim.Step
 			wrong = int64(r.Intn(128)) & int64(r.Intn(128))
 		}
 		return sim.Step{Op: "br.mint", A: r.Intn(5), I: []int64{int64(r.Pick([]int{12, 1})), int64(r.Pick([]int{5, 1, 2, 1, 3, 1})),
-			int64(r.Pick([]int{10, 3, 1, 1})), int64(r.Intn(64)), valid, tam, dup, int64(r.Pick([]int{8, 1, 1})), wrong, int64(r.Intn(1 << 20)), int64(r.Pick([]int{12, 1, 1, 1, 1}))}}
+			int64(r.Pick([]int{10, 3, 1, 1})), int64(r.Intn(64)), valid, tam, dup, int64(r.Pick([]int{8, 1, 1})), wrong, int64(r.Intn(1 << 20)), int64(r.Pick([]int{12, 1, 1, 1, 1})),
+			// last: the same authorizer repeated with its one valid signature in varied hex case
+			// (0 none, v: 2+v%5 copies; v >= 8: nothing else in the payload)
+			int64(r.Pick([]int{5, 1}) * (1 + r.Intn(14)))}}
 	}
 	if mint {
 		if r.Intn(3) != 0 {
@@ -462,6 +465,27 @@ func setupBridge(w *ledger.World, r *ledger.Runner) {
 				}
 			}
 		}
+		if v := st.Int(11, 0); v > 0 && len(idx) > 0 {
+			a := wl.auths[idx[int(st.Int(3, 0))%len(idx)]]
+			if sig, err := a.keys.Sign(msg); err == nil {
+				if v >= 8 {
+					sigs = nil
+				} else {
+					// drop this authorizer's other entries: only the case variants remain for it
+					kept := sigs[:0]
+					for _, e := range sigs {
+						if e.ID != a.id {
+							kept = append(kept, e)
+						}
+					}
+					sigs = kept
+				}
+				for c := 0; c < 2+int(v%5); c++ {
+					sigs = append(sigs, sigJSON{ID: a.id, Sig: hexCase(sig, c)})
+				}
+				tr.Fault("mint_same_authorizer_repeated_hexcase")
+			}
+		}
 		// seeded order
 		or := sim.NewRNG(uint64(st.Int(9, 1)))
 		or.Shuffle(len(sigs), func(i, k int) { sigs[i], sigs[k] = sigs[k], sigs[i] })
@@ -493,6 +517,20 @@ func indexOf(a []int, v int) int {
 		}
 	}
 	return 0
+}
+
+// hexCase writes the same hex string in another letter case: variant 0 lower, 1 upper, others mixed.
+func hexCase(s string, variant int) string {
+	b := []byte(strings.ToLower(s))
+	for i := range b {
+		if b[i] < 'a' || b[i] > 'f' {
+			continue
+		}
+		if variant == 1 || (variant > 1 && (i+variant)%(variant%3+2) == 0) {
+			b[i] -= 'a' - 'A'
+		}
+	}
+	return string(b)
 }
 
 // tamperHex flips one hex digit in the middle of a signature.
